@@ -144,12 +144,14 @@ def run(ctx):
                     r2.ok("%s -> %s: cdr argument is tail-guarded (non-Cons arm of a match on that cdr)"
                           % (caller, callee), fn, t.get("line"))
                     continue
-                key = "%s | cdr-arg->%s" % (caller, callee)
+                # keyed by the calling function (not by the callee's name, which changes when the call is routed
+                # through a helper)
+                key = "%s | cdr-arg" % caller
                 if key in exc and exc[key]["count"] > 0:
                     exc[key]["count"] -= 1
                     r2.ok("%s (table: %s)" % (key, exc[key]["reason"]), fn, t.get("line"))
                     continue
-                r2.violation(caller, "cdr-arg->%s" % callee,
+                r2.violation(caller, "cdr-arg",
                              "%s calls %s (same recursive cycle) with an argument derived from a cdr accessor and "
                              "no guard excluding a Cons: recursion depth follows the list's length"
                              % (caller, callee), fn.loc(t.get("line")))
